@@ -1772,7 +1772,7 @@ V("C07", "skip_event_compares_values_for_slots", "fire", "R07.a", (Z, """       
 V("C07", "no_callback_below_first_level", "fire", "R07.a", (Z, "        if depth > 0:\n            def callback(*events):", "        if depth > 1:\n            def callback(*events):"))
 V("C07", "param_spec_compares_nothing", "fire", "R07.a", (Z, "            subparams = ['.'.join(path[:-1] + [sp]) for sp in list(subobjs[-1].param)]", "            subparams = []"))
 V("C07", "old_watchers_unwatched_on_parent", "fire", "R07.b", (Z, "                    (w.cls if w.inst is None else w.inst).param.unwatch(w)", "                    obj.param.unwatch(w)"))
-V("C07", "old_watchers_stay_recorded", "fire", "R07.b", (Z, "                for w in obj._param__private.dynamic_watchers.pop(method, []):", "                for w in obj._param__private.dynamic_watchers.get(method, []):"))
+V("C07", "old_watchers_stay_recorded", "fire", "R07.b", (Z, "                replaced = obj._param__private.dynamic_watchers.pop(method, [])", "                replaced = list(obj._param__private.dynamic_watchers.get(method, []))"))
 V("C07", "new_watchers_not_recorded", "fire", "R07.b", (Z, """                watcher = self_._watch_group(obj, method, queued, group, attribute)
                 obj._param__private.dynamic_watchers[method].append(watcher)""", """                watcher = self_._watch_group(obj, method, queued, group, attribute)
                 if init:
@@ -2166,3 +2166,5 @@ V("C07", "rebuilt_watcher_queued_next_to_the_one_it_replaces", "fire", "R07.q", 
 V("C06", "replaced_watcher_dropped_from_the_queue_without_successor", "fire", "R06.q", (Z, "                        pending[:] = [watcher if q is w else q for q in pending]", "                        pending[:] = [q for q in pending if q is not w]"), (Z, "            if not any(watcher is w for w in self_._state_watchers):\n                self_._state_watchers.append(watcher)", "            if not any(watcher is w for w in self_._state_watchers) and watcher.precedence >= 0:\n                self_._state_watchers.append(watcher)"))
 V("C06", "benign_queue_slot_handed_over_by_index", "benign", None, (Z, "                        pending[:] = [watcher if q is w else q for q in pending]", "                        for i, q in enumerate(pending):\n                            if q is w:\n                                pending[i] = watcher"))
 V("C07", "benign_queue_slot_handed_over_by_index", "benign", None, (Z, "                        pending[:] = [watcher if q is w else q for q in pending]", "                        for i, q in enumerate(pending):\n                            if q is w:\n                                pending[i] = watcher"))
+V("C14", "edit_constant_unlocks_the_class_level_parameter", "fire", "R14.x", (Z, "            pobj = parameterized.param[pname]\n            pobj.constant = False", "            pobj.constant = False"))
+V("C14", "benign_own_parameter_looked_up_under_another_name", "benign", None, (Z, "            pobj = parameterized.param[pname]\n            pobj.constant = False\n            updated.append((pname, pobj))", "            own = parameterized.param[pname]\n            own.constant = False\n            updated.append((pname, own))"))
